@@ -161,4 +161,9 @@ def rename_then_import(inp):
 
 
 # thorough tier (bounded native sweeps): (function, inputs, obligation of the open finding it reproduces or None)
+def create_delta_spec(inp):
+    from replay.c01 import create_delta_spec as f
+    return f(inp)
+
+
 THOROUGH = [('roundtrip', {}, None), ('rename_then_import', {}, None), ('file_view_equals_simple', {}, None)]
